@@ -14,6 +14,8 @@ ITER_STRIP = {"iter", "into_iter", "iter_mut", "cloned", "copied"}
 ITER_ADAPTORS = {"map", "filter", "filter_map", "for_each", "any", "all", "retain", "find", "position",
                  "flat_map", "take_while", "skip_while", "inspect", "fold", "map_while", "find_map",
                  "retain_mut", "partition", "max_by_key", "min_by_key", "sort_by_key", "then"}
+ELEM_PRESERVING = {"filter", "inspect", "skip_while", "take_while", "rev", "skip", "take", "peekable", "by_ref",
+                   "step_by", "fuse"}
 OK_PASSTHROUGH = {"map_err", "map", "or_else", "context"}  # Result/Option combinators keeping Ok-ness (map keeps)
 UNSIGNED = {"u8", "u16", "u32", "u64", "u128", "usize"}
 
@@ -291,6 +293,13 @@ class Ctx:
                     v = v["e"]
                 if v["k"] == "var" and n["l"]["k"] == "var":
                     self.assigned.add(v["id"])
+        # stable per-kind ordinals (pre-order) used instead of source positions in canonical terms
+        self._ord = {}
+        cnt = {}
+        for n in ir.walk(fn.full_body):
+            c = cnt.get(n["k"], 0)
+            cnt[n["k"]] = c + 1
+            self._ord[id(n)] = c
         # closure parents for cparam resolution
         self._closure_parent = {}
         pm = fn.parents()
@@ -370,10 +379,10 @@ class Ctx:
             if diverges(n["t"]) and not diverges(n["e"]):
                 return self.term(n["e"], depth + 1)
         if k == "closure":
-            return "λ@" + n["sp"].rsplit("/", 1)[-1]
+            return "λ#%d" % self._ord.get(id(n), -1)
         if k == "fnref":
             return canon_fn(n["fn"])
-        return "<%s@%s>" % (k, n.get("sp", "?").rsplit("/", 1)[-1])
+        return "<%s#%d>" % (k, self._ord.get(id(n), -1))
 
     def var_term(self, vid, name, depth=0):
         if vid in self._term_cache:
@@ -398,7 +407,11 @@ class Ctx:
             clo, idx = base[1], base[2]
             par = self._closure_parent.get(id(clo))
             if par is not None and par["k"] == "mcall" and par["name"] in ITER_ADAPTORS and len(clo.get("params", [])) == 1:
-                res = self.term(par["recv"], depth + 1) + "[*]" + suffix
+                # an element of a filtered/reordered iterator is an element of the underlying collection
+                base = par["recv"]
+                while base["k"] == "mcall" and base["name"] in ELEM_PRESERVING:
+                    base = base["recv"]
+                res = self.term(base, depth + 1) + "[*]" + suffix
             else:
                 res = "λ%d" % idx + suffix
         else:
